@@ -366,4 +366,101 @@ def rule_defer(ctx) -> RuleResult:
     return res
 
 
-RULES = [rule_pair, rule_rekey, rule_rec, rule_esc, rule_defer]
+FRESH_FUNCS = {"deepcopy", "copy.deepcopy", "np.array", "np.hstack", "np.vstack", "np.concatenate", "np.r_", "np.round", "np.char.encode", "np.ones", "np.zeros", "np.where"}
+
+
+def is_fresh(expr) -> bool:
+    """The expression builds a new array (does not alias its operand)."""
+    if isinstance(expr, ast.Call):
+        f = unparse(expr.func)
+        if f in FRESH_FUNCS:
+            return True
+        if isinstance(expr.func, ast.Attribute):
+            if expr.func.attr == "copy":
+                return True
+            if expr.func.attr == "astype":
+                return not any(k.arg == "copy" and unparse(k.value) == "False" for k in expr.keywords)
+            if expr.func.attr in ("tolist", "flatten"):
+                return True
+            return is_fresh(expr.func.value) if expr.func.attr in ("reshape",) else False
+    if isinstance(expr, ast.BinOp):
+        return True
+    return False
+
+
+def rule_fresh(ctx) -> RuleResult:
+    res = RuleResult(
+        "C04.FRESH",
+        "C04",
+        "(a) the writer substitutes NaN only in a fresh copy of the values it was handed, never in the concatenator's live array; "
+        "(b) Concatenator.copy fills the copy's data / index tables from the file (or copies), never with the source's own arrays; "
+        "(c) values appended to a concatenated array are not cast to the dtype of what is already stored",
+        floor=4,
+    )
+    p = ctx.p
+    # (a) in-place stores on local arrays in the two value writers
+    for spec in ("H5Writer.update_concatenated_field", "H5Writer.write_data_values"):
+        fn = p.func(spec)
+        body = list(ast.walk(fn.node))
+        for st in body:
+            if not (isinstance(st, ast.Assign) and isinstance(st.targets[0], ast.Subscript) and isinstance(st.targets[0].value, ast.Name)):
+                continue
+            var = st.targets[0].value.id
+            if var.endswith("handle") or var in ("visible",):
+                continue
+            # the closest preceding assignment to `var` (source order) must be fresh
+            defs = [a for a in body if isinstance(a, ast.Assign) and any(isinstance(t, ast.Name) and t.id == var for t in a.targets) and a.lineno < st.lineno]
+            last = max(defs, key=lambda a: a.lineno) if defs else None
+            ok = last is not None and is_fresh(last.value)
+            res.inst(f"{spec}:{st.lineno} in-place `{unparse(st.targets[0])[:40]} = ...` on a fresh array ({unparse(last.value)[:40] if last else 'parameter'})", nontrivial=True, ok=ok)
+            if not ok:
+                res.find("H5Writer", fn.name, f"in-place store into `{var}`, which may alias the entity's array: {unparse(last.value)[:50] if last else 'parameter'}",
+                         f"{fn.module.relpath}:{st.lineno}",
+                         "the writer's no-data substitution is applied to the very array the entity / concatenator holds in memory: other holes "
+                         "reading the shared array see 1.17549435e-38 instead of NaN in the same session")
+    # (b) Concatenator.copy
+    cp = p.func("Concatenator.copy")
+    sinks = []
+    for a in ast.walk(cp.node):
+        if isinstance(a, ast.Assign):
+            tg = a.targets[0].elts if isinstance(a.targets[0], ast.Tuple) else [a.targets[0]]
+            for t in tg:
+                if isinstance(t, ast.Subscript) and unparse(t.value) in ("new_entity.data", "new_entity.index"):
+                    sinks.append((t, a))
+    if not sinks:
+        raise AnalysisError("Concatenator.copy: stores into new_entity.data / .index not found")
+    defs = {}
+    for a in ast.walk(cp.node):
+        if isinstance(a, ast.Assign) and isinstance(a.targets[0], ast.Name):
+            defs.setdefault(a.targets[0].id, []).append(a.value)
+    for t, a in sinks:
+        v = a.value
+        srcs = defs.get(v.id, []) if isinstance(v, ast.Name) else [v]
+        ok = bool(srcs) and all((isinstance(s, ast.Call) and (unparse(s.func).endswith("fetch_concatenated_values") or is_fresh(s))) for s in srcs)
+        res.inst(f"Concatenator.copy:{a.lineno} {unparse(t)[:40]} <- {[unparse(s)[:50] for s in srcs]}", nontrivial=True, ok=ok)
+        if not ok:
+            res.find("Concatenator", "copy", f"{unparse(t)[:40]} filled from {unparse(v)[:40]}", f"{cp.module.relpath}:{a.lineno}",
+                     "the copy's concatenated tables are the source's own arrays: removing or updating an entry in the copy shifts the start "
+                     "indices of the source in place")
+    # (c) no cast of the stored values
+    ua = p.func("Concatenator.update_array_attribute")
+    stores = [a for a in ast.walk(ua.node) if isinstance(a, ast.Assign) and unparse(a.targets[0]).startswith("self.data[")]
+    if not stores:
+        raise AnalysisError("Concatenator.update_array_attribute: store into self.data[...] not found")
+    defs = {}
+    for a in ast.walk(ua.node):
+        if isinstance(a, ast.Assign) and isinstance(a.targets[0], ast.Name):
+            defs.setdefault(a.targets[0].id, []).append(a.value)
+    for a in stores:
+        srcs = defs.get(a.value.id, []) if isinstance(a.value, ast.Name) else [a.value]
+        casts = [unparse(x)[:60] for s in srcs for x in ast.walk(s) if isinstance(x, ast.Call) and isinstance(x.func, ast.Attribute) and x.func.attr == "astype"]
+        ok = not casts
+        res.inst(f"update_array_attribute:{a.lineno} values stored into self.data[...] without a cast", nontrivial=True, ok=ok)
+        if not ok:
+            res.find("Concatenator", "update_array_attribute", f"stored values are cast: {casts[0]}", f"{ua.module.relpath}:{a.lineno}",
+                     "values appended for one hole are converted to the dtype of the values stored for other holes: longer strings are truncated, "
+                     "fractions are dropped")
+    return res
+
+
+RULES = [rule_pair, rule_rekey, rule_rec, rule_esc, rule_defer, rule_fresh]
